@@ -246,6 +246,73 @@ fn guarded(rec: &mut Recorder, sched: &Schedule, o: &Opts, case: usize) {
     }
 }
 
+/// request lines that reproduce a schedule (`frontier` = commit marker)
+fn schedule_lines(sched: &Schedule) -> Vec<String> {
+    let mut v = vec!["reset".to_string()];
+    for b in sched {
+        for c in b {
+            v.push(cmd_line(c));
+        }
+        v.push("frontier".into());
+    }
+    v
+}
+
+enum Child {
+    Done(serde_json::Value),
+    TimedOut,
+    Failed(String),
+}
+
+/// Run `c02 --replay <file>` in a child process under a watchdog: a braid that does not terminate
+/// must not hang the check.
+fn child_replay(args: &Args, replay: &std::path::Path, out: &std::path::Path, only_recorded: bool, secs: u64) -> Child {
+    let exe = match std::env::current_exe() {
+        Ok(e) => e,
+        Err(e) => return Child::Failed(format!("current_exe: {e}")),
+    };
+    let mut cmd = std::process::Command::new(exe);
+    cmd.arg("--seed").arg(args.seed.to_string()).arg("--tier").arg(&args.tier).arg("--out").arg(out).arg("--replay").arg(replay);
+    cmd.env("VH_CHILD", "1");
+    if only_recorded {
+        cmd.env("VH_ONESCHED", "1");
+    }
+    cmd.stdout(std::process::Stdio::null()).stderr(std::process::Stdio::null());
+    let mut ch = match cmd.spawn() {
+        Ok(c) => c,
+        Err(e) => return Child::Failed(format!("spawn: {e}")),
+    };
+    let deadline = std::time::Instant::now() + std::time::Duration::from_secs(secs);
+    loop {
+        match ch.try_wait() {
+            Ok(Some(st)) => {
+                if !st.success() {
+                    return Child::Failed(format!("child exited with {st}"));
+                }
+                let txt = std::fs::read_to_string(out.join("stats.json")).unwrap_or_default();
+                return match serde_json::from_str(&txt) {
+                    Ok(v) => Child::Done(v),
+                    Err(e) => Child::Failed(format!("child stats unreadable: {e}")),
+                };
+            }
+            Ok(None) => {
+                if std::time::Instant::now() > deadline {
+                    let _ = ch.kill();
+                    let _ = ch.wait();
+                    return Child::TimedOut;
+                }
+                std::thread::sleep(std::time::Duration::from_millis(50));
+            }
+            Err(e) => return Child::Failed(format!("wait: {e}")),
+        }
+    }
+}
+
+/// watchdog budget for one replayed case list
+fn watchdog_secs() -> u64 {
+    std::env::var("VH_WATCHDOG").ok().and_then(|v| v.parse().ok()).unwrap_or(240)
+}
+
 fn salt(args: &Args, case: usize) -> u64 {
     args.seed.wrapping_mul(1_000_003).wrapping_add(case as u64)
 }
@@ -257,6 +324,23 @@ fn main() {
     let mut rng = Rng::new(args.seed);
 
     if let Some(p) = &args.replay {
+        if std::env::var("VH_CHILD").is_err() {
+            // parent: replay in a child process under a watchdog (a non-terminating braid is a
+            // violation, not a hung check); the child writes the output files itself
+            match child_replay(&args, p, &args.out, false, watchdog_secs()) {
+                Child::Done(_) => return,
+                Child::TimedOut => {
+                    rec.begin_case();
+                    rec.oracle_fail_with(
+                        format!("replay: delivery did not terminate within {} s (add_commands/commit of a braid hangs)", watchdog_secs()),
+                        vh::read_replay_input(p),
+                    );
+                }
+                Child::Failed(e) => rec.panics.push(format!("replay child failed: {e}")),
+            }
+            rec.finish(args.seed, &args.tier);
+            return;
+        }
         let lines = vh::read_replay_input(p);
         for (k, sched) in parse_schedules(&lines).iter().enumerate() {
             // the recorded delivery schedule first, then: one transaction per command, random small
@@ -264,12 +348,14 @@ fn main() {
             let cmds = flatten(sched);
             let n = cmds.len() as u64;
             let mut scheds = vec![sched.clone()];
-            for (per_cmd, mb, fixed) in [(true, 1, true), (false, 6, false), (false, n, true), (false, (n / 2).max(2), true)] {
-                scheds.push(make_schedule(&mut rng, &cmds, per_cmd, mb, fixed));
+            if std::env::var("VH_ONESCHED").is_err() && n <= 400 {
+                for (per_cmd, mb, fixed) in [(true, 1, true), (false, 6, false), (false, n, true), (false, (n / 2).max(2), true)] {
+                    scheds.push(make_schedule(&mut rng, &cmds, per_cmd, mb, fixed));
+                }
             }
             for sc in &scheds {
                 rec.begin_case();
-                let o = Opts { merge_sample: 1, label: format!("replay{k}") };
+                let o = Opts { merge_sample: if n > 400 { 97 } else { 1 }, label: format!("replay{k}") };
                 guarded(&mut rec, sc, &o, k);
             }
         }
@@ -365,6 +451,47 @@ fn main() {
         let sched = make_schedule(&mut rng, &cmds, false, (cmds.len() as u64 / 6).max(8), false);
         guarded(&mut rec, &sched, &o, case);
         case += 1;
+    }
+    // ---- a wide level: more than 3*256 convergence points with the same max cut.  Run in a child
+    // process under a watchdog (found: the convergence map's block scan can cycle for ever).
+    {
+        let w = if args.thorough() || args.search { 1000 } else { 800 };
+        let d = wide_dag(&mut rng, w, 2, 17);
+        let cmds = realize(&d, salt(&args, case));
+        let sched = make_schedule(&mut rng, &cmds, false, (cmds.len() as u64 / 3).max(8), false);
+        let lines = schedule_lines(&sched);
+        let dir = args.out.join("probe-wide");
+        let _ = std::fs::create_dir_all(&dir);
+        let file = dir.join("input.json");
+        let js = format!("{{\"input\": [{}]}}", lines.iter().map(|l| serde_json::to_string(l).unwrap()).collect::<Vec<_>>().join(","));
+        std::fs::write(&file, js).expect("write probe input");
+        rec.begin_case();
+        rec.count(&format!("shape:wide-{w}"));
+        match child_replay(&args, &file, &dir, true, watchdog_secs()) {
+            Child::Done(v) => {
+                if let Some(dist) = v["distribution"].as_object() {
+                    for (k, n) in dist {
+                        if k.contains("spill") || k.contains("over_") || k == "braid_calls" || k == "cmds" || k == "merge_cmds" {
+                            rec.count_n(k, n.as_u64().unwrap_or(0));
+                        }
+                    }
+                }
+                if let Some(fs) = v["oracle_failures"].as_array() {
+                    for f in fs.iter().take(3) {
+                        rec.oracle_fail_with(format!("wide-{w}: {}", f["what"].as_str().unwrap_or("?")), lines.clone());
+                    }
+                }
+                for pmsg in v["panics"].as_array().cloned().unwrap_or_default() {
+                    rec.panics.push(format!("wide-{w}: {}", pmsg.as_str().unwrap_or("?")));
+                }
+                rec.nontrivial(fnv(&lines.join("\n")));
+            }
+            Child::TimedOut => rec.oracle_fail_with(
+                format!("wide-{w}: delivery of a graph with {w} same-level convergence points did not terminate within {} s: no command of the final braid is ever applied", watchdog_secs()),
+                lines.clone(),
+            ),
+            Child::Failed(e) => rec.panics.push(format!("wide-{w}: child failed: {e}")),
+        }
     }
     rec.finish(args.seed, &args.tier);
 }
